@@ -607,8 +607,18 @@ func (b *billing) opWithdraw() {
 	w := walletIdent(rapid.IntRange(0, 1).Draw(rt, "wallet"))
 	a := store.Account(w.addr)
 	failSettle := rapid.IntRange(0, 3).Draw(rt, "settleFails") == 0
+	// sometimes the wallet earns more while the (slow, on-chain) settlement is in flight
+	during := new(big.Int)
+	if rapid.IntRange(0, 2).Draw(rt, "accrueDuringSettle") == 0 {
+		during = big.NewInt(int64(rapid.SampledFrom([]int{1, 300, 1000000}).Draw(rt, "during")))
+	}
 	s.mu.Lock()
-	s.settleHook = func(store.Account, *big.Int) error {
+	s.settleHook = func(acct store.Account, _ *big.Int) error {
+		if during.Sign() != 0 {
+			if err := s.st.AddAccountBalance(acct, during); err != nil {
+				return err
+			}
+		}
 		if failSettle {
 			return errScripted
 		}
@@ -624,7 +634,13 @@ func (b *billing) opWithdraw() {
 	}
 	executes := !(s.cfg.WithdrawMin != nil && total.Cmp(s.cfg.WithdrawMin) < 0) && !failSettle
 	err := s.withdraw(w)
-	b.logf("withdraw %s (credit %s, total %s, settleFails=%v) -> %v", w.name, credit, total, failSettle, err)
+	b.logf("withdraw %s (credit %s, total %s, settleFails=%v, +%s credited while settling) -> %v", w.name, credit, total, failSettle, during, err)
+	if !(s.cfg.WithdrawMin != nil && total.Cmp(s.cfg.WithdrawMin) < 0) && during.Sign() != 0 {
+		// the settle handler ran: the credit it granted is on the books whatever the outcome
+		s.model.st.AddAccountBalance(a, during)
+		s.model.granted.Add(s.model.granted, during)
+		b.classes["accrual-during-settle"] = true
+	}
 	if classifyErr(err).Kind == "verify" {
 		b.fail("correctly signed withdraw refused: %v", err)
 	}
@@ -656,6 +672,23 @@ func billingCase(rt *rapid.T, prop string, rec *vt.Rec) {
 	b := &billing{rt: rt, prop: prop, classes: map[string]bool{}, nAgents: nAgents}
 	b.s = newSession(rt, cfg, nAgents)
 	defer b.s.close()
+	// hosts may answer a disconnect instruction with an error or slowly: every connected host peer must be asked anyway
+	disconnectMode := make([]string, nAgents)
+	for i := range disconnectMode {
+		disconnectMode[i] = rapid.SampledFrom([]string{"ok", "ok", "error", "slow"}).Draw(rt, "disconnectMode")
+	}
+	b.s.behave = func(hostIdx, connID int, method, arg string) (time.Duration, error) {
+		if method != "disconnect" {
+			return 0, nil
+		}
+		switch disconnectMode[hostIdx] {
+		case "error":
+			return 0, errScripted
+		case "slow":
+			return 2 * time.Second, nil
+		}
+		return 0, nil
+	}
 	for i := 0; i < nAgents; i++ {
 		r := billAgent{isHost: i < 2, kind: rapid.SampledFrom([]string{"geth", "geth", "parity"}).Draw(rt, "kind"), wallet: rapid.IntRange(-1, 1).Draw(rt, "wallet")}
 		if i == 2 {
